@@ -83,6 +83,11 @@ _BIN = {
     ast.FloorDiv: lambda a, b: a // b,
     ast.Div: lambda a, b: a / b,
     ast.Pow: lambda a, b: a**b,
+    ast.BitAnd: lambda a, b: a & b,
+    ast.BitOr: lambda a, b: a | b,
+    ast.BitXor: lambda a, b: a ^ b,
+    ast.LShift: lambda a, b: a << b,
+    ast.RShift: lambda a, b: a >> b,
 }
 
 
@@ -237,6 +242,29 @@ class Interp:
 
         return fn
 
+    def function(self, fd: ast.FunctionDef):
+        """A nested `def`: a closure over the defining environment as it is at call time (so it can call itself and later
+        siblings), with positional / keyword / default binding."""
+        a = fd.args
+        names = [x.arg for x in a.posonlyargs + a.args]
+        outer = self
+        defaults = list(zip(names[len(names) - len(a.defaults):], a.defaults)) + [(x.arg, d) for x, d in zip(a.kwonlyargs, a.kw_defaults) if d is not None]
+        body = [s for s in fd.body if not (isinstance(s, ast.Expr) and isinstance(s.value, ast.Constant))]
+
+        def fn(*args, **kwargs):
+            env = {**outer.env, **dict(zip(names, args)), **kwargs}
+            for n_, d in defaults:
+                if n_ not in dict(zip(names, args)) and n_ not in kwargs:
+                    env[n_] = outer.ev(d)
+            sub = Interp(env, resolve_name=outer.resolve_name, call_hook=outer.call_hook)
+            try:
+                sub.run(body, outer._exc_resolver)
+            except Returned as r:
+                return r.value
+            return None
+
+        return fn
+
     def call(self, e: ast.Call) -> Any:
         f = e.func
         if isinstance(f, ast.Name) and f.id in ("all", "any") and len(e.args) == 1 and isinstance(e.args[0], ast.GeneratorExp):
@@ -275,7 +303,7 @@ class Interp:
             return _PURE_BUILTINS[f.id](*[self.ev(a) for a in e.args], **{k.arg: self.ev(k.value) for k in e.keywords})
         if isinstance(f, ast.Name) and callable(self.env.get(f.id)):  # a callable handed in by the case (e.g. a default rule)
             return self.env[f.id](*[self.ev(a) for a in e.args], **{k.arg: self.ev(k.value) for k in e.keywords})
-        if isinstance(f, ast.Attribute) and isinstance(f.value, ast.Name) and f.value.id in ("math", "itertools", "functools", "operator", "heapq") and f.value.id not in self.env:
+        if isinstance(f, ast.Attribute) and isinstance(f.value, ast.Name) and f.value.id in ("math", "itertools", "functools", "operator", "heapq", "json") and f.value.id not in self.env:
             import functools as _ft
             import itertools as _itools
             import math as _math
@@ -283,7 +311,9 @@ class Interp:
 
             import heapq as _hq
 
-            modv = {"math": _math, "itertools": _itools, "functools": _ft, "operator": _op, "heapq": _hq}[f.value.id]
+            import json as _json
+
+            modv = {"math": _math, "itertools": _itools, "functools": _ft, "operator": _op, "heapq": _hq, "json": _json}[f.value.id]
             fn = _PURE_BUILTINS.get(f.attr) or getattr(modv, f.attr, None)
             if fn is not None:
                 return fn(*[self.ev(a) for a in e.args], **{k.arg: self.ev(k.value) for k in e.keywords})
@@ -297,7 +327,10 @@ class Interp:
         raise Unsupported(f"call {ast.unparse(e.func)}")
 
     # ---------------------------------------------------------------- statements
+    _exc_resolver = None
+
     def run(self, stmts: list[ast.stmt], exc_resolver: Callable[[ast.AST], str] | None = None) -> None:
+        self._exc_resolver = exc_resolver
         for st in stmts:
             self.stmt(st, exc_resolver)
 
@@ -345,6 +378,8 @@ class Interp:
             if fn is None:
                 raise Unsupported("augmented assignment op")
             self.assign(st.target, fn(self.ev(st.target), self.ev(st.value)))
+        elif isinstance(st, ast.FunctionDef) and not st.decorator_list:
+            self.env[st.name] = self.function(st)
         elif isinstance(st, ast.Pass):
             return
         elif isinstance(st, ast.For) and not st.orelse:
@@ -392,6 +427,17 @@ class Interp:
                 base[self.ev(tgt.slice)] = val
             except Exception as ex:
                 raise Unsupported(f"subscript store {ast.unparse(tgt)}") from ex
+        elif isinstance(tgt, (ast.Tuple, ast.List)) and sum(isinstance(x, ast.Starred) for x in tgt.elts) == 1:
+            vals = list(val) if isinstance(val, (tuple, list)) else None
+            k = next(i for i, x in enumerate(tgt.elts) if isinstance(x, ast.Starred))
+            after = len(tgt.elts) - k - 1
+            if vals is None or len(vals) < len(tgt.elts) - 1:
+                raise Raised("ValueError", tgt)
+            for t, v in zip(tgt.elts[:k], vals[:k]):
+                self.assign(t, v)
+            self.assign(tgt.elts[k].value, vals[k: len(vals) - after])
+            for t, v in zip(tgt.elts[k + 1:], vals[len(vals) - after:]):
+                self.assign(t, v)
         elif isinstance(tgt, (ast.Tuple, ast.List)) and not any(isinstance(x, ast.Starred) for x in tgt.elts):
             vals = list(val) if isinstance(val, (tuple, list)) else None
             if vals is None or len(vals) != len(tgt.elts):
@@ -424,6 +470,10 @@ def region_reps(consts: list[float], integer: bool = False, with_nan: bool = Tru
         if i + 1 < len(cs):
             reps.append((c + cs[i + 1]) / 2.0)
     reps.append(cs[-1] + 1.0)
+    # just-outside values: the floating-point neighbours of every boundary (a guard that first narrows the value to a lower
+    # precision decides these differently from the documented comparison)
+    for c in cs:
+        reps += [math.nextafter(float(c), -math.inf), math.nextafter(float(c), math.inf)]
     reps += [math.inf, -math.inf]
     if with_nan:
         reps.append(math.nan)
@@ -480,4 +530,109 @@ def scalar_tensor_ops(interp, call: ast.Call, dotted: str | None):
     }[name]()
     if isinstance(f, ast.Attribute) and f.attr.endswith("_") and isinstance(f.value, ast.Name) and not (dotted and dotted.startswith("torch.")):
         interp.env[f.value.id] = res  # the in-place twin updates the receiver
+    return res
+
+
+def repo_pure_calls(repo, module, depth: int = 3, inner=None):
+    """Call hook that follows calls of module-level repository functions (resolved through the caller's imports) by
+    interpreting their bodies — for utilities made of the same closed sub-language as their callers.  `inner` is consulted
+    first (a rule's own hook)."""
+
+    def hook(it, c: ast.Call):
+        if inner is not None:
+            r = inner(it, c)
+            if r is not _MISSING:
+                return r
+        f = c.func
+        d = repo.dotted_of(module, f) if isinstance(f, (ast.Name, ast.Attribute)) else None
+        fi = repo.func_by_dotted(repo.resolve_dotted(module, d)) if d else None
+        if fi is None or fi.cls is not None or depth <= 0:
+            return _MISSING
+        a = fi.node.args
+        names = [x.arg for x in a.posonlyargs + a.args]
+        env = {}
+        for p_, v in zip(names, c.args):
+            env[p_] = it.ev(v)
+        for k in c.keywords:
+            if k.arg:
+                env[k.arg] = it.ev(k.value)
+        sub = Interp({}, resolve_name=it.resolve_name)
+        for n_, dv in list(zip(names[len(names) - len(a.defaults):], a.defaults)) + [(x.arg, dv) for x, dv in zip(a.kwonlyargs, a.kw_defaults) if dv is not None]:
+            if n_ not in env:
+                env[n_] = sub.ev(dv)
+        body = [s_ for s_ in fi.node.body if not (isinstance(s_, ast.Expr) and isinstance(s_.value, ast.Constant))]
+        callee = Interp(env, resolve_name=it.resolve_name, call_hook=repo_pure_calls(repo, fi.module, depth - 1, inner))
+        try:
+            callee.run(body, lambda e: ast.unparse(e))
+        except Returned as r:
+            return r.value
+        return None
+
+    return hook
+
+
+def round_to_dtype(x: float, dtype_name: str) -> float:
+    """The value a Python float has after `torch.tensor(x, dtype=…)` (IEEE round-to-nearest-even; bfloat16 = float32 with the
+    low 16 mantissa bits rounded away)."""
+    import struct
+
+    if isinstance(x, bool) or not isinstance(x, (int, float)):
+        raise Unsupported("tensor of a non-number")
+    x = float(x)
+    if dtype_name in ("float64", "double") or x != x or x in (math.inf, -math.inf):
+        return x
+    if dtype_name in ("float32", "float"):
+        try:
+            return struct.unpack("f", struct.pack("f", x))[0]
+        except OverflowError:
+            return math.copysign(math.inf, x)
+    if dtype_name in ("float16", "half"):
+        try:
+            return struct.unpack("e", struct.pack("e", x))[0]
+        except OverflowError:
+            return math.copysign(math.inf, x)
+    if dtype_name == "bfloat16":
+        try:
+            bits = struct.unpack("I", struct.pack("f", x))[0]
+        except OverflowError:
+            return math.copysign(math.inf, x)
+        lower = bits & 0xFFFF
+        bits >>= 16
+        if lower > 0x8000 or (lower == 0x8000 and (bits & 1)):
+            bits += 1
+        return struct.unpack("f", struct.pack("I", (bits << 16) & 0xFFFFFFFF))[0]
+    raise Unsupported(f"dtype {dtype_name}")
+
+
+def stdlib_resolver(repo, module, extra=None):
+    """Name resolver for interpreting repository utilities: module constants, names imported from the pure standard-library
+    modules (operator / functools / itertools / math / json / heapq / copy.deepcopy), and whatever `extra(name)` supplies first."""
+    import copy as _copy
+    import functools as _ft
+    import heapq as _hq
+    import itertools as _it
+    import json as _json
+    import operator as _op
+
+    mods = {"operator": _op, "functools": _ft, "itertools": _it, "math": math, "json": _json, "heapq": _hq}
+
+    def res(name: str):
+        if extra is not None:
+            v = extra(name)
+            if v is not _MISSING:
+                return v
+        if name in mods and module.imports.get(name, name) == name:
+            return mods[name]
+        d = repo.resolve_dotted(module, name)
+        ok, v = repo.const_by_dotted(d)
+        if ok:
+            return v
+        head, _, attr = d.rpartition(".")
+        if head in mods and hasattr(mods[head], attr):
+            fn = getattr(mods[head], attr)
+            return _PURE_BUILTINS.get(attr, fn) if head == "itertools" else fn
+        if d == "copy.deepcopy":
+            return _copy.deepcopy
+        raise Unsupported(f"free name {name!r}")
+
     return res
